@@ -183,8 +183,9 @@ def _job(job) -> List[Dict[str, Any]]:
     prog = Program()
     roles = prog.roles()[idx]
     out: List[Dict[str, Any]] = []
-    for sizes in game._sizes(tier):
-        for lv in game.weak_orderings(len(sizes)):
+    games = [(sizes, lv) for sizes in game._sizes(tier) for lv in game.weak_orderings(len(sizes))] + list(game.LARGE_GAMES)
+    for sizes, lv in games:
+        if True:
             c = f"rate stores the closed-form posterior: team sizes {sizes}, {game.describe(lv)}"
             want = expected(roles.short, sizes, lv)
             if want is None:
